@@ -6,6 +6,7 @@ log-and-continue, warn-and-continue and warn-and-pause strategies with start, bo
 mixed drivers on the real simulator, and the executed trace / states / escaping exceptions are compared
 with the reference interpreter.
 """
+from vlib.simharness import num
 import os
 import sys
 
@@ -39,7 +40,7 @@ def gen_case(rng, tier, i):
     seed = int(os.environ.get("VERIF_SEED", "0") or 0)
     prng = base.rng_for("c05-program", seed, tier, pidx)
     clock = ["float", "int", "duration"][pidx % 3]
-    prog = gen_program(prng, clock=clock, n_events=prng.randint(4, 12), with_bad=False, with_cancel=prng.random() < 0.4)
+    prog = gen_program(prng, clock=clock, n_events=prng.randint(4, 12), with_bad=False, with_cancel=prng.random() < 0.4, bigint=True)
     ref = Ref(prog)
     ref.initialize()
     ref.run()
@@ -180,8 +181,8 @@ def run_case(case, ctx):
                 if snap["pending"] != len(ref.pending):
                     ctx.viol("pending-events-after-segment", {**w, "got": snap["pending"], "want": len(ref.pending)})
                     return
-                if not (name == "step" and not seg) and snap["clock"] != float(ref.clock):
-                    ctx.viol("clock-after-segment", {**w, "got": snap["clock"], "want": float(ref.clock)})
+                if not (name == "step" and not seg) and snap["clock"] != num(ref.clock):
+                    ctx.viol("clock-after-segment", {**w, "got": snap["clock"], "want": num(ref.clock)})
                     return
         if ref.state != "ENDED" and ref.can_start():
             ctx.viol("harness:did-not-finish", where)
